@@ -9,8 +9,9 @@ Trace == ndJsonDeserialize("cases.ndjson")
 VARIABLES l, bad, stats
 vars == <<l, bad, stats>>
 
-Judgeable(c) == \A k \in DOMAIN c.steps : /\ SingleCandidate(c.steps[k].outs, Seen(c.steps[k]))
-                                          /\ \A i \in DOMAIN c.steps[k].outs : InFragment(c.steps[k].outs[i].pat)
+\* (an output's guard is shown every candidate of its pattern until it accepts one, as a machine's branch does: sessions
+\*  whose patterns match a line in several ways are judged like all others)
+Judgeable(c) == \A k \in DOMAIN c.steps : \A i \in DOMAIN c.steps[k].outs : InFragment(c.steps[k].outs[i].pat)
 Labels(c) ==
   (IF c.verdict = "pass" /\ Judgeable(c) /\ ~SpecPass(c.steps) THEN {"false-pass"} ELSE {})
   \cup (IF c.verdict = "panic" THEN {"crash"} ELSE {})
